@@ -141,6 +141,25 @@ def check_design(ctx, d, steps, memmap, label):
         if srcmems & resmems:
             ctx.violation(name + ':shares-memories', '%s result shares memory objects with the source' % name, dict(replay, op=name))
             ok = False
+        if name == 'synthesize' and hasattr(res, 'reg_map'):
+            for r in sorted(src.wirevector_subset(pyrtl.Register), key=lambda w: w.name):
+                bits = list(res.reg_map.get(r, []))
+                want_bits = [None if r.reset_value is None else (r.reset_value >> k_) & 1 for k_ in range(len(bits))]
+                got_bits = [getattr(b_, 'reset_value', 'not-a-register') for b_ in bits]
+                if got_bits != want_bits or len(bits) != len(r):
+                    ctx.violation('synthesize:reset-value', 'register %s (reset_value %r, %d bits) becomes 1-bit registers with reset values %r' % (
+                        r.name, r.reset_value, len(r), got_bits), dict(replay, op=name))
+                    ok = False
+                    break
+        # the name registry of the result points at the memories its nets use
+        used = {n.op_param[1].name: n.op_param[1] for n in res.logic_subset('m@')}
+        for nm_, m_ in used.items():
+            reg_m = res.memblock_by_name.get(nm_)
+            if reg_m is not None and reg_m is not m_ and sum(1 for x in res.logic_subset('m@') if x.op_param[1].name == nm_ and x.op_param[1] is not m_) == 0:
+                ctx.violation(name + ':memblock_by_name', '%s: get_memblock_by_name(%r) of the result returns a memory object (id %d) that none of '
+                              'its nets uses (they use id %d)' % (name, nm_, reg_m.id, m_.id), dict(replay, op=name))
+                ok = False
+                break
         if name in ('synthesize', 'copy_block') and hasattr(res, 'mem_map'):
             srcm = set(id(n.op_param[1]) for n in src.logic_subset('m@'))
             resm = set(id(n.op_param[1]) for n in res.logic_subset('m@'))
@@ -219,6 +238,21 @@ def check_design(ctx, d, steps, memmap, label):
         if fp_diff(fp_src, fingerprint(src)):
             ok = False
             ctx.violation('edit-copy-affects-source', 'adding a net to the copy changed the source', replay)
+        # renaming a wire of the copy while the source is the working block
+        with pyrtl.set_working_block(src, no_sanity_check=True):
+            victim = sorted((w for w in cp.wirevector_set if not isinstance(w, Const) and not w.name.startswith('verif_')),
+                            key=lambda w: w.name)[-1]
+            victim_old = victim.name
+            victim.name = 'verif_renamed_in_copy'
+        if fp_diff(fp_src, fingerprint(src)):
+            ok = False
+            ctx.violation('rename-in-copy-affects-source', 'renaming wire %s of the copy (w.name = ...) changed the source block: %s' % (
+                victim_old, fp_diff(fp_src, fingerprint(src))), replay)
+        try:
+            cp.sanity_check()
+        except Exception as e:  # noqa
+            ok = False
+            ctx.violation('rename-in-copy-malformed', 'after renaming wire %s of the copy the copy fails sanity_check: %s' % (victim_old, str(e)[:120]), replay)
         simrun.run_real(pyrtl.Simulation, cp, steps, {}, {}, 0, track=None)
         simrun.run_real(pyrtl.FastSimulation, src, steps, {}, {}, 0, track=None)
         if fp_diff(fp_src, fingerprint(src)):
